@@ -4,6 +4,7 @@ import Heathcliff.Proofs.GenScalingSpec
 import Heathcliff.Proofs.C07F
 import Heathcliff.Proofs.GenEvalCt
 import Heathcliff.Proofs.GenEvalCt3
+import Heathcliff.Proofs.GenDec12
 
 /- Property theorems only (statements verbatim; proofs are the helper lemmas of Heathcliff/Proofs). -/
 namespace HC.C07
@@ -133,5 +134,56 @@ theorem gen_ct_translate_inplace_sub_tail_partial : type_of% @HC.gc_translate_in
      correction factors (Proofs/GenEvalCt3.lean; witnesses in Props/C02.lean) -/
 theorem gen_ct_translate_inplace_eq_general : type_of% @HC.gt_translate_inplace_eq_general := @HC.gt_translate_inplace_eq_general
 theorem gen_ct_translate_inplace_balanced : type_of% @HC.gt_translate_inplace_balanced := @HC.gt_translate_inplace_balanced
+
+/-! ### Phase 4m (tools/rs2lean_dec.py, Gen/DecFns.lean): the decryptor's norm / budget / correction-factor code of src/encryptor.rs tied to the source -/
+/-- GENERATED `bgv_decrypt` (skeleton: opaque steps 1 = phase, 2 = inverse NTT, 3 = `decrypt_mod_t`) = the model's correction-factor fix-up + trimming -/
+theorem gen_bgv_decrypt_eq : type_of% @HC.gd_bgv_decrypt_eq := @HC.gd_bgv_decrypt_eq
+/-- the `if ct.cf ≠ 1` block of `bgvDecrypt` (Model/Scheme.lean) is `bgvFixupL` -/
+theorem bgvFixup_is_model : type_of% @HC.gd_bgvFixup_model := @HC.gd_bgvFixup_model
+/-- EVERY plain modulus 2 ≤ t < 2^61, COMPOSITE included, every cf ≠ 1 coprime to t: every coefficient is multiplied by the inverse of cf mod t -/
+theorem bgvFixup_spec : type_of% @HC.gd_bgvFixup_spec := @HC.gd_bgvFixup_spec
+theorem bgvFixup_refuses : type_of% @HC.gd_bgvFixup_refuses := @HC.gd_bgvFixup_refuses
+/-- witnesses: composite t = 12, cf = 5 -/
+theorem bgv_decrypt_witness : type_of% @HC.gd_bgv_witness := @HC.gd_bgv_witness
+theorem bgvFixup_witness : type_of% @HC.gd_bgvFixup_witness := @HC.gd_bgvFixup_witness
+/-- GENERATED `invariant_noise_budget` (skeleton): refusals, plan, norm, bit counts, `bits(Q) - bits(norm) - 1` clamped at 0 -/
+theorem gen_invariant_noise_budget_eq : type_of% @HC.gd_invariant_noise_budget_eq := @HC.gd_invariant_noise_budget_eq
+theorem gen_budget_arith : type_of% @HC.gd_budget_arith := @HC.gd_budget_arith
+theorem gen_budget_witness : type_of% @HC.gd_budget_witness := @HC.gd_budget_witness
+/-- GENERATED `poly_infty_norm`: its frame, and the value-level meaning of one coefficient step (centred lift with `≥`, running maximum) -/
+theorem gen_poly_infty_norm_unfold : type_of% @HC.gd_poly_infty_norm_unfold := @HC.gd_poly_infty_norm_unfold
+theorem normStepW_spec : type_of% @HC.gd_normStepW_spec := @HC.gd_normStepW_spec
+theorem gen_norm_witness : type_of% @HC.gd_norm_witness := @HC.gd_norm_witness
+
+/-- GENERATED loop of `poly_infty_norm` = one `normStepW` per coefficient; the whole routine = the model's norm fold of the coefficient values -/
+theorem gen_norm_loop_succ : type_of% @HC.gd_norm_loop_succ := @HC.gd_norm_loop_succ
+theorem gen_poly_infty_norm_spec : type_of% @HC.gd_poly_infty_norm_spec := @HC.gd_poly_infty_norm_spec
+/-- the counting helpers and the rounding helper of src/util/basic.rs, regenerated, = the hand models (C08) -/
+theorem gen_get_significant_uint64_count_uint_eq : type_of% @HC.gd_get_significant_uint64_count_uint_eq := @HC.gd_get_significant_uint64_count_uint_eq
+theorem gen_get_significant_bit_count_uint_eq : type_of% @HC.gd_get_significant_bit_count_uint_eq := @HC.gd_get_significant_bit_count_uint_eq
+theorem gen_add_uint_u64_inplace_eq : type_of% @HC.gd_add_uint_u64_inplace_eq := @HC.gd_add_uint_u64_inplace_eq
+theorem gen_half_round_up_uint_eq : type_of% @HC.gd_half_round_up_uint_eq := @HC.gd_half_round_up_uint_eq
+theorem gen_threshold_spec : type_of% @HC.gd_threshold_spec := @HC.gd_threshold_spec
+theorem gen_bgv_trim_eq : type_of% @HC.gd_bgv_trim_eq := @HC.gd_bgv_trim_eq
+/-- the last lines of the model's `noiseBudget` in the vocabulary of the source tie (`budgetOfBits`, `normFoldV`) -/
+theorem noiseBudget_unfold : type_of% @HC.gd_noiseBudget_unfold := @HC.gd_noiseBudget_unfold
+/-- SOURCE → MODEL: generated `invariant_noise_budget` on the composed noise = plan of the opaque steps + the model's budget of the
+    coefficient values (threshold `(Q+1)/2` with `≥`, `bits(Q) − bits(norm) − 1`, clamp at 0); with `noiseBudget_eq_spec` above: → the definition -/
+theorem gen_budget_source_spec : type_of% @HC.gd_budget_source_spec_full := @HC.gd_budget_source_spec_full
+theorem gen_budget_source_witness : type_of% @HC.gd_budget_source_witness := @HC.gd_budget_source_witness
+/-- GENERATED `dot_product_ct_sk_array` (skeleton): order of the kernel calls and flat offsets for EVERY size ≥ 2, both representations;
+    stride of the key powers = n · (prime count of the KEY level) -/
+theorem gen_dot_product_plan_eq : type_of% @HC.gd_dot_product_plan_eq := @HC.gd_dot_product_plan_eq
+theorem gen_dot_plan_witness : type_of% @HC.gd_dot_plan_witness := @HC.gd_dot_plan_witness
+theorem gen_dot_plan_witness2 : type_of% @HC.gd_dot_plan_witness2 := @HC.gd_dot_plan_witness2
+theorem gen_dot_plan_witness16 : type_of% @HC.gd_dot_plan_witness16 := @HC.gd_dot_plan_witness16
+
+/-- GENERATED `bfv_decrypt` / `ckks_decrypt` / `decrypt` (skeletons): refusals, order of the opaque steps, destination sizes, trimming, dispatch -/
+theorem gen_bfv_decrypt_eq : type_of% @HC.gd_bfv_decrypt_eq := @HC.gd_bfv_decrypt_eq
+theorem gen_ckks_decrypt_eq : type_of% @HC.gd_ckks_decrypt_eq := @HC.gd_ckks_decrypt_eq
+theorem gen_decrypt_dispatch_eq : type_of% @HC.gd_decrypt_dispatch_eq := @HC.gd_decrypt_dispatch_eq
+theorem gen_bfv_witness : type_of% @HC.gd_bfv_witness := @HC.gd_bfv_witness
+/-- `trimPlain` (Model/Scheme.lean) on lists is the `resize(max(sigWords, 1))` of the generated code (non-empty plaintexts) -/
+theorem trimPlain_toList : type_of% @HC.gd_trimPlain_toList := @HC.gd_trimPlain_toList
 
 end HC.C07
